@@ -97,7 +97,7 @@ func (p *rd) expr() (*Val, error) {
 		if c == '[' {
 			closer = ']'
 		}
-		v := &Val{K: KList, Pos: pos, Quoted: c == '['}
+		v := &Val{K: KList, Pos: pos, Quoted: c == '[', Bracket: c == '['}
 		for {
 			p.skip()
 			if p.i >= len(p.s) {
